@@ -18,8 +18,8 @@ def claimed(pr):
     """Programs for which 'the same forwarding declared explicitly' is unambiguous."""
     if pr.route == 'param':
         return False            # partial objects: C19
-    if pr.context == 'ifelse_same' and pr.route == 'partial':
-        return False            # the first call hands the callee's name to functools.partial: "cannot be resolved" afterwards
+    if pr.context == 'ifelse_same' and pr.route in ('partial', 'helper'):
+        return False            # the first call hands the callee's name to other code: "cannot be resolved" afterwards
     if pr.route == 'wrapssig':
         return False            # the wrapper's own parameter list is hidden behind the copied __signature__: C05 only
     if pr.taint and grammar.taints(pr.taint) and pr.taint[2] == 'after' and pr.context in grammar.NESTED_CONTEXTS:
